@@ -849,6 +849,16 @@ func c14Load(c *mon.Ctx, r *gen.Rand, sc *simScenario) {
 	if len(inputs) == 0 {
 		return
 	}
+	if r.Chance(0.3) {
+		// a batch may list an event twice: the copy still gets a result of its own (without an event, like an
+		// unparsable element), and the first copy is classified as usual
+		for _, i := range inputs {
+			if i.pdu != nil {
+				inputs = append(inputs, in{raw: i.raw, expect: "parse"})
+				break
+			}
+		}
+	}
 	want := map[string]int{}
 	for _, i := range inputs {
 		want[i.expect]++
@@ -900,6 +910,10 @@ func c14Load(c *mon.Ctx, r *gen.Rand, sc *simScenario) {
 				cls = "auth-rules"
 			default:
 				cls = "parse"
+			}
+			if rs.Event == nil && rs.Error == nil {
+				c.Failf("load:empty-result", "a result carries neither an event nor an error")
+				continue
 			}
 			if rs.Event == nil {
 				if cls != "parse" {
